@@ -219,6 +219,19 @@ func runComp(seed int64, cc compCase, replay bool) {
 		b.rec.reset()
 		b.rt.begin(lowerWire(q.Name))
 		var arr arrival
+		if b.sk != nil && b.sk.expired >= 3 {
+			// the socket path lost replies repeatedly (already reported): do not
+			// spend the run waiting, use the direct calling convention instead
+			switch tgroup(pl.Transport) {
+			case "udp":
+				pl.Transport = "h-udp"
+			case "tcp":
+				pl.Transport = "h-tcp"
+			case "doh-get", "doh-post":
+				pl.Transport = "h-doh"
+			}
+			rep.Count("socket_deliveries_abandoned", 1)
+		}
 		switch pl.Transport {
 		case "h-udp", "h-tcp", "h-doh":
 			arr = b.direct(qw, pl.Transport, client)
@@ -242,7 +255,7 @@ func runComp(seed int64, cc compCase, replay bool) {
 			}
 		}
 		calls, rerr, rresp := b.rec.get()
-		o := &observation{q: q, qw: qw, arr: arr, recCalls: calls, recErr: rerr, recResp: rresp, tr: b.rt.end()}
+		o := &observation{q: q, qw: qw, arr: arr, recCalls: calls, recErr: rerr, recResp: rresp, tr: b.rt.end(), transport: tgroup(pl.Transport)}
 		rep.Eval(1)
 		tg := tgroup(pl.Transport)
 		rep.Count("deliveries_"+tg, 1)
